@@ -89,3 +89,19 @@ static void second_life(void) {
 }
 extern "C" void h_second_life(void) { second_life(); }
 extern "C" void h_second_life_reuse(void) { second_life(); }
+// overlapping lives: up to three Lexicons alive at the same time (each with a unit and a zoo case), created and destroyed in a symbolic
+// order; when the last one is gone every allocation made on their behalf has been returned
+extern "C" void h_overlapping_lives(void) {
+   unsigned total = zoo::count();
+   vp_mark();
+   zoo::World* w[3] = { nullptr, nullptr, nullptr }; int made = 0; zoo::Null_visitor nv;
+   for (int step = 0; step < 6; ++step) {
+      int alive = (w[0] != nullptr) + (w[1] != nullptr) + (w[2] != nullptr);
+      bool create = made < 3 && (alive == 0 || vp_flag());
+      if (create) { zoo::World* x = new zoo::World; x->concrete = true; zoo::build(*x, (7 * made + 3) % total, nv); x->lx.get_string(u8"a word of some length, interned"); w[made++] = x; }
+      else if (alive > 0) { unsigned k = vp_pick(3); vp_assume(w[k] != nullptr); delete w[k]; w[k] = nullptr; }
+   }
+   for (int k = 0; k < 3; ++k) if (w[k]) { delete w[k]; w[k] = nullptr; }
+   vp_leakcheck();
+   vp_done();
+}
